@@ -22,7 +22,7 @@ RULE = ("(a) create_from_info(get_info(M)) for DictArithmetic and the ten model 
         "methods incl. all add_constraint_* and operators) evaluated at the outermost call while the generated workloads of "
         "C02-C11, C14-C16 and C18 run underneath. Non-trivial = round trip / aliasing case on a model with >= 2 terms, or a "
         "monitored call that received at least one container argument; distinct = digest of the case"
-        ' Also: falsy names, a new label added to the rebuilt model, copy.deepcopy compared in full, no-op normalisation must still return a new object, retained-argument probes (the polynomial / operand / info dict a model was built from is edited afterwards), plain dicts with explicit zero entries handed to every dict-taking entry point (item order compared).')
+        ' Also: falsy names, a new label added to the rebuilt model, recorded constraints compared with their polynomial types and by is_solution_valid agreement on random assignments, copy.deepcopy compared in full, no-op normalisation must still return a new object, retained-argument probes (the polynomial / operand / info dict a model was built from is edited afterwards), plain dicts with explicit zero entries handed to every dict-taking entry point (item order compared).')
 TIERS = {"quick": {"shards": 8, "cases": 350}, "thorough": {"shards": 16, "cases": 12000}}
 FLOOR_BASE = {"quick": 220, "thorough": 6000}    # case counts the floors below were calibrated for; the launcher scales them
 FLOOR_FIXED = {"monitored-entry-points-hit"}
@@ -32,7 +32,7 @@ TYPES = ["DictArithmetic", "QUBO", "PUBO", "PCBO", "QUSO", "PUSO", "PCSO", "QUBO
 
 def FLOORS(tier):
     q = tier == "quick"
-    f = {"immutability-checks": 20000 if q else 10 ** 6, "monitored-entry-points-hit": 70, "round-trips": 300 if q else 10000,
+    f = {"immutability-checks": 20000 if q else 10 ** 6, "monitored-entry-points-hit": 70, "round-trips": 300 if q else 10000, "round-trip:validity-agreement-checks": 80 if q else 2500,
          "aliasing-probes": 2500 if q else 10 ** 5, "round-trip:with-constraints": 40, "round-trip:permuted-mapping": 40,
          "round-trip:stale-mapping": 40, "round-trip:named": 60, "round-trip:falsy-name": 25, "round-trip:info-without-optional-entries": 60, "retained:operand-with-constraints": 4,
          "zero-entry-dict-calls": 100, "retained:add_constraint_eq_zero": 30, "retained-arg:PUBO": 15, "retained-arg:dict": 15}
@@ -235,7 +235,8 @@ def public_state(m):
     for a in ("mapping", "reverse_mapping", "num_ancillas", "constraints", "variables", "degree", "num_binary_variables"):
         if hasattr(m, a):
             v = getattr(m, a)
-            s[a] = {k: [dict(p) for p in ps] for k, ps in v.items()} if a == "constraints" else v
+            # a recorded constraint is a polynomial of the model's kind (it judges assignments as such): its type is part of it
+            s[a] = {k: [(type(p).__name__, dict(p)) for p in ps] for k, ps in v.items()} if a == "constraints" else v
     return s
 
 
@@ -264,6 +265,23 @@ def round_trip(ctx, rng):
         if a != b:
             ctx.violation("round-trip:%s-differs" % attr, "%s: original %r, copy %r" % (attr, a, b), w)
             return
+    if before.get("constraints") and "stale-mapping" not in feats:
+        # the reproduced constraints judge assignments like the recorded ones
+        vs_ = sorted(m.variables, key=repr)
+        dom_ = (0, 1) if tn in ("PCBO",) else (1, -1)
+        for _ in range(4):
+            sol = {x: rng.choice(dom_) for x in vs_}
+            try:
+                a_ = m.is_solution_valid(sol)
+            except Exception:
+                break
+            ok, b_ = ctx.call("is_solution_valid", c.is_solution_valid, dict(sol), _w=w)
+            if not ok:
+                return
+            ctx.count("round-trip:validity-agreement-checks")
+            if a_ != b_:
+                ctx.violation("round-trip:copy-judges-differently", "is_solution_valid(%r): original %r, copy %r" % (sol, a_, b_), w)
+                return
     ok, info2 = ctx.call("get_info", L.utils.get_info, c, _w=w)
     if not ok:
         return
